@@ -54,6 +54,7 @@ var commands = map[string]command{
 	"hash-replay":         hashReplay,
 	"versions-replay":     versionsReplay,
 	"vdrapi-replay":       vdrapiReplay,
+	"identifiers-replay":  identifiersReplay,
 	"clientsend-replay":   clientsendReplay,
 	"patcharray-replay":   patcharrayReplay,
 	"chain-replay":        chainReplay,
